@@ -119,7 +119,7 @@ def initResult (cfg : Cfg) : Option String :=
 /-- The hypotheses of the C10 theorems on the session (`Cfg.WF` in Theorems.lean). -/
 def cfgWF (cfg : Cfg) : Bool :=
   decide (cfg.firm0 ≤ cfg.soft0) && decide (cfg.rollupStart ≤ cfg.firm0 + 1) && decide (1 ≤ cfg.seqStart)
-    && (cfg.mode != .firmOnly || decide (cfg.firm0 = cfg.soft0))
+    && (cfg.mode != .firmOnly || decide (cfg.firm0 = cfg.soft0)) && decide (cfg.lie = 0)
 
 /-! ### the BlockCache part -/
 
@@ -175,10 +175,14 @@ def run (lines : Array String) : Driver.Report := Id.run do
     let (op, impl) := Driver.splitLine line
     let ps := parts impl
     match Driver.words op with
-    | ["executor", "reset", "exec", mode, s, rr, f0, s0, cel0, la] =>
+    | "executor" :: "reset" :: "exec" :: mode :: s :: rr :: f0 :: s0 :: cel0 :: la :: lieArg =>
+      -- optional 8th parameter: fault injection of the rollup (0 / absent = honest)
+      let lie := match lieArg with
+        | [l] => l.toNat?.getD 0
+        | _ => 0
       match parseMode mode, s.toNat?, rr.toNat?, f0.toNat?, s0.toNat?, cel0.toNat?, la.toNat? with
       | some mode, some s, some rr, some f0, some s0, some cel0, some la =>
-        let cfg : Cfg := ⟨mode, s, rr, f0, s0, cel0, la⟩
+        let cfg : Cfg := ⟨mode, s, rr, f0, s0, cel0, la, lie⟩
         match initResult cfg with
         | some e =>
           st := { st with sys := none, mon := none, cache := none }
@@ -190,6 +194,7 @@ def run (lines : Array String) : Driver.Report := Id.run do
           r := r.check n line impl s!"ok | - | {fmtState sys}"
           r := r.bump s!"exec_sessions_{modeName mode}"
           if !cfgWF cfg then r := r.bump "exec_sessions_outside_theorem_hypotheses"
+          if lie ≠ 0 then r := r.bump "exec_sessions_with_lying_rollup"
       | _, _, _, _, _, _, _ => r := r.addDisagree n line "bad-reset"
     | ["executor", "soft", h] | ["executor", "firm", h, _] =>
       match st.sys, h.toNat? with
